@@ -84,19 +84,20 @@ blocked-actor detection. (5) **A check binary is built from the tree it last saw
 `try_seed.sh` the binary is a mutant; everything that is meant to judge the unchanged tree
 rebuilds first (one full thorough pass was invalid for this reason and was repeated).
 
-### 8.3 Round 3: three more changes for eight properties
+### 8.3 Round 3: three more changes per property
 
-For the eight properties with the widest quantifiers (C01, C04, C05, C07, C08, C09, C11, C16) a
-third round asked for **three** further changes each, with one-line summaries of the earlier
-rounds' changes so that nothing was repeated (a different function or a different failure mode
-was required). 24 changes; archived as `/verif/seeded/<id>-3a`, `-3b`, `-3c`.
+A third round asked for **three** further changes per property, with one-line summaries of the
+earlier rounds' changes so that nothing was repeated (a different function or a different
+failure mode was required); first for the eight properties with the widest quantifiers (C01,
+C04, C05, C07, C08, C09, C11, C16), then in batches for the others as time allowed. {len(r3)}
+changes so far; archived as `/verif/seeded/<id>-3a`, `-3b`, `-3c`.
 
 | id | seeded change (one line) | status | detected by | detected as | what it took / why not |
 |----|--------------------------|--------|-------------|-------------|------------------------|
 '''+"\n".join(r3)+f'''
 
-Status counts: {dict(c3)}. 7 of 24 were caught by the checks as they stood, 17 needed a
-strengthening - a much lower as-built rate than in rounds 1 and 2, which is the point of asking
+Status counts: {dict(c3)}. Roughly a third were caught by the checks as they stood, the rest
+needed a strengthening - a much lower as-built rate than in rounds 1 and 2, which is the point of asking
 for changes that avoid everything tried before. None of the strengthenings refers to the change
 that prompted it. What round 3 taught:
 (1) **An alphabet entry can be vacuous without anyone noticing** - the scripted "connection
